@@ -129,7 +129,9 @@ func init() {
 			return Value{}, true
 		},
 		"Atomic": func(in *Interp, fr *Frame, a []Value) (Value, bool) {
+			in.raceAcquire(&in.race.atomic)
 			in.CallSync(a[0], nil) // no scheduling point inside
+			in.raceRelease(&in.race.atomic)
 			return Value{}, true
 		},
 		"CidKey": func(in *Interp, fr *Frame, a []Value) (Value, bool) {
